@@ -253,6 +253,12 @@ def catalogue(name: str) -> list[str]:
               'YQ===', '=YQ=', 'Y=Q=', 'éQ==']
     if name == 'error':
         c += ['a', '0']
+    if name in ('QName', 'NOTATION'):
+        # names (the declared notations n1, n2 among them), near-names, prefixed names (no prefix is in scope at type
+        # level), and texts of 0-4 items for the lists over these types
+        c += ['a', 'ab', 'abc', 'x1', '_a', 'a.b', 'a-b', '1a', '-a', '.a', 'a b', ' a   b ', 'a b c', 'a b c d', 'x\ty\nz',
+              'n1', 'n2', 'n3', 'n1 n2', 'n1 n2 n1', 'n1  n1', ' n1 ', 'a:b', 'p:a', 'p:a b', 'a:', ':a', 'a:b:c', 'xs:a', 'é',
+              'a é', 'ab ab', 'a ab abc', 'a 1a', 'abc abc abc abc abc', 'x1 x1', 'a,b', 'a;b']
     return list(dict.fromkeys(c))
 
 
@@ -366,6 +372,19 @@ def gen_facets(rng: Any, root: str, level: int, v11: bool, inherited: dict) -> d
             f['enumeration'] = rng.sample(DATE_LIT[root], 2)
         if v11 and rng.random() < 0.5:
             f['explicitTimezone'] = rng.choice(['required', 'prohibited', 'optional'])
+    elif root in ('QName', 'NOTATION'):
+        # NOTATION can only be used through an enumeration of declared notations; the length family on the atomic
+        # types is the W3C-bug-4009 exemption (not checked), on lists over them it counts items
+        k = rng.random()
+        if root == 'NOTATION' and level == 1:
+            f['enumeration'] = rng.sample(['n1', 'n2'], rng.randrange(1, 3))
+        elif k < 0.35:
+            f['enumeration'] = rng.sample(['a', 'ab', 'abc', 'x1', 'n1'], rng.randrange(1, 4))
+        elif k < 0.5 and root == 'QName':
+            f['pattern'] = rng.choice(['[a-z]+', '[a-z0-9]{1,2}', 'a.*'])
+        if rng.random() < 0.5:
+            a, b = sorted([rng.randrange(0, 4), rng.randrange(0, 4)])
+            f.update(rng.choice([{'length': a}, {'minLength': a}, {'maxLength': b}, {'minLength': a, 'maxLength': b}]))
     elif root == 'boolean':
         f['pattern'] = rng.choice(['true|false', '[01]', 'true'])
     elif root in DUR_TYPES:
@@ -446,9 +465,39 @@ def directed_descs(v11: bool) -> list:
         if k % 4 == 0:
             out.append(('l', ('u', [first, ('b', 'token')])))
     out += directed_pattern_unions()
+    out += directed_qname_lists()
     out.append(('u', [('r', ('b', 'dayTimeDuration' if v11 else 'duration'), {'enumeration': ['PT24H', 'PT1M']}),
                       ('r', ('b', 'short'), {'minExclusive': '-32768'}),
                       ('r', ('r', ('b', 'normalizedString'), {'minLength': 4, 'maxLength': 5}), {'minLength': 4})]))
+    return out
+
+
+def directed_qname_lists() -> list:
+    """the length family where its unit depends on the VARIETY and on the primitive type: on a list it counts items
+    whatever the item type is, on an atomic xs:QName / xs:NOTATION it is not checked (W3C bug 4009).  Every facet kind
+    at 0, 1, 2 on lists over xs:QName, restrictions of it and enumerated NOTATIONs, one and two derivation steps, the
+    atomic exemption itself, and the same lists inside unions / as union items"""
+    q = ('b', 'QName')
+    items = [q, ('r', q, {'enumeration': ['a', 'ab', 'abc', 'x1']}), ('r', q, {'maxLength': 1}),
+             ('r', ('b', 'NOTATION'), {'enumeration': ['n1', 'n2']}),
+             ('r', ('r', ('b', 'NOTATION'), {'enumeration': ['n1', 'n2']}), {'minLength': 5})]
+    out: list = []
+    for item in items:
+        lst = ('l', item)
+        out.append(lst)
+        for n in (0, 1, 2):
+            out += [('r', lst, {'length': n}), ('r', lst, {'minLength': n}), ('r', lst, {'maxLength': n})]
+        out.append(('r', ('r', lst, {'minLength': 1, 'maxLength': 3}), {'minLength': 2, 'maxLength': 2}))
+        out.append(('r', ('r', lst, {'maxLength': 3}), {'maxLength': 1}))
+        out.append(('r', ('r', lst, {'length': 2}), {'enumeration': ['a ab', 'n1 n2', 'x1 abc']}))
+    for f in ({'length': 2}, {'minLength': 3}, {'maxLength': 1}, {'length': 0}):
+        out.append(('r', q, f))
+        out.append(('r', ('r', ('b', 'NOTATION'), {'enumeration': ['n1', 'n2']}), f))
+    out.append(('r', ('r', q, {'minLength': 1}), {'maxLength': 2}))
+    out.append(('u', [('r', ('l', q), {'length': 2}), ('b', 'int')]))
+    out.append(('u', [('r', ('l', q), {'maxLength': 1}), ('r', ('l', ('b', 'token')), {'length': 3})]))
+    out.append(('r', ('l', ('u', [('b', 'int'), q])), {'length': 2}))
+    out.append(('r', ('l', ('u', [q, ('b', 'date')])), {'minLength': 2, 'maxLength': 2}))
     return out
 
 
@@ -478,7 +527,8 @@ def gen_types(rng: Any, v11: bool, n: int) -> list[dict]:
     ('l', desc) | ('u', [desc])"""
     out = directed_descs(v11)
     atoms = []
-    roots = BASES_NUM + BASES_STR + BASES_BIN + list(DATE_LIT) + ['boolean'] + (DUR_TYPES if v11 else ['duration'])
+    roots = BASES_NUM + BASES_STR + BASES_BIN + list(DATE_LIT) + ['boolean'] + (DUR_TYPES if v11 else ['duration']) + \
+        ['QName', 'QName', 'NOTATION']
     for i in range(n):
         root = rng.choice(roots)
         f1 = gen_facets(rng, root, 1, v11, {})
@@ -490,14 +540,23 @@ def gen_types(rng: Any, v11: bool, n: int) -> list[dict]:
         out.append(d)
     for i in range(max(4, n // 4)):
         item = rng.choice(atoms + [('b', x) for x in ('int', 'decimal', 'boolean', 'token', 'date', 'NMTOKEN', 'hexBinary',
-                                                      'double', 'gYear')])
+                                                      'double', 'gYear', 'QName', 'QName')])
+        if rng.random() < 0.12:
+            item = rng.choice([a for a in atoms if root_name(a) in ('QName', 'NOTATION')] or [item])
         d = ('l', item)
-        if rng.random() < 0.5:
+        if rng.random() < (0.8 if root_name(item) in ('QName', 'NOTATION') else 0.5):
             a, b = sorted([rng.randrange(0, 4), rng.randrange(0, 4)])
             f = rng.choice([{'length': a}, {'minLength': a, 'maxLength': b}, {'maxLength': b}, {'minLength': a}])
             if rng.random() < 0.3 and item == ('b', 'int'):
                 f = {'enumeration': ['1 2', '3', ' 1  2 ', '']}
             d = ('r', d, f)
+            if rng.random() < 0.25 and 'enumeration' not in f:
+                # a second derivation step on the list (narrowing the length family)
+                lo = f.get('length', f.get('minLength', 0))
+                hi = f.get('length', f.get('maxLength', lo + 2))
+                if lo <= hi:
+                    n = rng.randrange(lo, hi + 1)
+                    d = ('r', d, rng.choice([{'minLength': n}, {'maxLength': n}, {'minLength': n, 'maxLength': hi}]))
         out.append(d)
     unions: list = []
     for i in range(max(4, n // 4)):
@@ -546,7 +605,8 @@ def union_members_in_built_order(d: Any) -> list:
     return [m for m in d[1] if m[0] != 'b'] + [m for m in d[1] if m[0] == 'b']
 
 
-HEAD = '<xs:schema xmlns:xs="http://www.w3.org/2001/XMLSchema">\n'
+HEAD = ('<xs:schema xmlns:xs="http://www.w3.org/2001/XMLSchema">\n'
+        '<xs:notation name="n1" public="x"/><xs:notation name="n2" public="y"/>\n')
 
 
 def build(v11: bool, descs: list) -> tuple[Any, list]:
@@ -630,6 +690,13 @@ def spec_type(d: Any, v11: bool, text: str, pin: tuple = (), _shadow: bool = Fal
             if d[1] == 'language':
                 return bool(re.match(rx, t)), ('s', t)
             return 'unjudged'       # \i \c name classes: left to the differential
+        if d[1] in ('QName', 'NOTATION'):
+            # judged on ASCII literals without prefix only (no namespace context at type level; the name classes of
+            # non-ASCII characters are left to the differential)
+            t = L.xsd_collapse(text)
+            if not t.isascii() or ':' in t:
+                return 'unjudged'
+            return bool(re.fullmatch(r'[A-Za-z_][A-Za-z0-9_.\-]*', t)), ('s', t)
         return L.spec_builtin(d[1], v11, text)
     if d[0] == 'l':
         items = [x for x in L.xsd_collapse(text).split(' ') if x != '']
@@ -679,6 +746,9 @@ def spec_type(d: Any, v11: bool, text: str, pin: tuple = (), _shadow: bool = Fal
             if k in ('length', 'minLength', 'maxLength'):
                 if v is None:
                     return 'unjudged'
+                if v[0] == 's' and root[0] == 'b' and root[1] in ('QName', 'NOTATION'):
+                    continue        # the length of an ATOMIC xs:QName / xs:NOTATION is not defined (W3C bug 4009);
+                                    # on a list of them the facets count the items like on any list
                 n = {'s': lambda: len(v[1]), 'l': lambda: len(v[1]), 'x': lambda: len(v[1]) // 2,
                      'y': lambda: len(v[1]) // 4 * 3 - (len(v[1]) - len(v[1].rstrip('=')))}.get(v[0])
                 if n is None:
@@ -1076,13 +1146,25 @@ def impl_eval(t: Any, text: str, oracle: L.Oracle) -> dict:
         out['pats'] = oracle.take()
         return out
     out['pats'] = oracle.take()
+    if L.involves_qname(t):
+        out['pats'] += L.qname_trace(t, text)
+        oracle.take()
+        out['qn'] = True
     out['value'] = value
     try:
         out['val'] = canon_floats(L.val_json(value))
     except Unsupported as e:
         out['val'] = {'unsupported': str(e)}
     out['errs'] = ['decode' if isinstance(e, XMLSchemaDecodeError) else 'validation' for e in errors]
+    if out.get('qn'):
+        out['errs'] = squash(out['errs'])
     return out
+
+
+def squash(errs: list) -> list:
+    """types that reach xs:QName: the atomic built-in reports a bad literal once (qname_validator) or twice (plus the
+    unmapped prefix); the oracle knows only accepted/refused, so runs of equal error classes are compared as one"""
+    return [e for i, e in enumerate(errs) if i == 0 or errs[i - 1] != e]
 
 
 def py_equal(a: Any, b: Any) -> bool:
@@ -1199,6 +1281,8 @@ def one_case(ctx: Ctx, oracle: L.Oracle, batch: Optional[Batch], v11: bool, labe
                             {'patterns': list(oracle.keep[pid - 1].regexps), 'value': value, 'impl': verdict})
     # ---- the property itself, by the independent reading ----
     spec = spec_type(d, v11, text)
+    if d == ('b', 'NOTATION'):
+        spec = 'unjudged'       # xs:NOTATION itself cannot be the type of a value (only its enumerated restrictions)
     judged = spec != 'unjudged'
     if judged:
         sv, sval = spec
@@ -1261,6 +1345,10 @@ def one_case(ctx: Ctx, oracle: L.Oracle, batch: Optional[Batch], v11: bool, labe
     ctx.case({k: v for k, v in case.items() if not k.startswith('_')}, nontrivial,
              tag=f"{case['v']}/{'builtin' if d[0] == 'b' else {'r': 'restriction', 'l': 'list', 'u': 'union'}[d[0]]}")
     ctx.count('verdict:' + ('valid' if valid else 'invalid:' + impl['errs'][0]))
+    if impl.get('qn') or 'NOTATION' in _all_builtin_names(d):
+        lf = _length_family_on(d)
+        ctx.count('dimension:qname-notation:' + ('list' if _contains_list(d) else 'atomic') +
+                  ('+length-family-on-' + lf if lf else '') + ':' + ('valid' if valid else 'invalid'))
     ctx.count('judged:' + ('yes' if judged else 'no'))
     if tj is None or batch is None:
         if case.get('_pyws_pending'):
@@ -1275,6 +1363,19 @@ def one_case(ctx: Ctx, oracle: L.Oracle, batch: Optional[Batch], v11: bool, labe
 
 # 24:00:00 on 31 December of a year outside 1..9998 (elementpath keeps the year: not judged, see ASSUMPTIONS)
 _ROLLOVER = re.compile(r'(?:^|[^0-9])(?:-[0-9]+|0000|9999|[0-9]{5,})-12-31T24:')
+
+
+def _length_family_on(d: Any) -> str:
+    """where a length/minLength/maxLength facet sits: 'list' (restriction whose root is a list), 'atomic', or ''"""
+    if d[0] == 'r':
+        if any(k in d[2] for k in ('length', 'minLength', 'maxLength')):
+            return 'list' if _root(d)[0] == 'l' else 'atomic' if _root(d)[0] == 'b' else 'union'
+        return _length_family_on(d[1])
+    if d[0] == 'l':
+        return _length_family_on(d[1])
+    if d[0] == 'u':
+        return next((x for x in (_length_family_on(m) for m in d[1]) if x), '')
+    return ''
 
 
 def _has_pattern(d: Any) -> bool:
@@ -1412,6 +1513,8 @@ def flush(ctx: Ctx, batch: Batch, drv: Driver) -> None:
         ctx.traces += 1
         want = {'val': impl['val'], 'errs': impl['errs']}
         mx = _proj(m)
+        if impl.get('qn') and 'errs' in mx:
+            mx['errs'] = squash(mx['errs'])
         if mx == want:
             fid = _f4_settle(case, impl) if case.get('_pyws_pending') else None
             if fid:
@@ -1432,7 +1535,10 @@ def flush(ctx: Ctx, batch: Batch, drv: Driver) -> None:
     alt_ans = drv.query([a[5] for a in alts]) if alts else []
     settled: dict[int, list] = {}
     for (case, want, ws, fix, chain, _), m in zip(alts, alt_ans):
-        if _proj(m) == want and id(case) not in settled:
+        pm = _proj(m)
+        if 'errs' in pm and any(e[0] == L.QNAME_ID for e in _['pats']):
+            pm['errs'] = squash(pm['errs'])
+        if pm == want and id(case) not in settled:
             settled[id(case)] = (['C02-F4'] if ws == 'py' else []) + ([] if fix else ['C02-F5']) + \
                 ([] if chain else ['C02-F12'])
     for case, want, mx, req in retry:
@@ -1577,6 +1683,7 @@ def _run(ctx: Ctx, drv: Optional[Driver], oracle: L.Oracle, widen: bool = False)
             flush(ctx, batch, drv)
         element_level(ctx, schema, good, v11, oracle)
         document_level(ctx, drv, v11, good, oracle)
+        qname_in_documents(ctx, v11)
     ctx.extra['explanation'] = ('built-in types x boundary catalogue is exhaustive over the catalogue; mutations and '
                                 'derived types are seeded samples')
 
@@ -2068,6 +2175,9 @@ def document_level(ctx: Ctx, drv: Optional[Driver], v11: bool, good: list, oracl
                 continue
             d = rng.choice(pool)
             cand = [x for x in DOC_TEXTS + _literals(d) if _doc_ok_text(x)]
+            if _all_builtin_names(d) & {'QName', 'NOTATION'}:
+                # (a prefix is in scope inside a document and not for the type on its own: `qname_in_documents`)
+                cand = [x for x in cand + ['a b', 'a b c', 'n1', 'n1 n2', 'ab'] if ':' not in x]
             items.append((d, rng.choice(cand), 'attribute' if rng.random() < 0.25 else 'element'))
         if len(items) >= 2:
             docs.append(items)
@@ -2085,6 +2195,12 @@ def document_level(ctx: Ctx, drv: Optional[Driver], v11: bool, good: list, oracl
         nontrivial = not all(r['own'])
         ctx.case(case, nontrivial, tag=f"{case['v']}/document")
         ctx.count('document:values', len(items))
+        diff = [i for i, (x, y) in enumerate(zip(r['in_doc'], r['own'])) if x != y]
+        f14 = bool(diff) and not r['other'] and 'content is empty' in r['reasons'] and \
+            all(f14_item(items[i]) and r['own'][i] and not r['in_doc'][i] for i in diff)
+        if f14:
+            ctx.known_hit('C02-F14', case, {'positions': diff, 'reasons': r['reasons']})
+            r = dict(r, in_doc=[o if i in diff else x for i, (x, o) in enumerate(zip(r['in_doc'], r['own']))])
         if r['in_doc'] != r['own'] or r['other']:
             pos = next((i for i, (x, y) in enumerate(zip(r['in_doc'], r['own'])) if x != y), None)
             ctx.failure('a value inside a document is judged differently than by its own type', case,
@@ -2122,9 +2238,69 @@ def document_level(ctx: Ctx, drv: Optional[Driver], v11: bool, good: list, oracl
                 ctx.mismatch('document', case, r['in_doc'], {'valid': model, 'slot': m['slot']})
 
 
+_QNAME_LEX = re.compile(r'(?:([A-Za-z_][A-Za-z0-9_.\-]*):)?[A-Za-z_][A-Za-z0-9_.\-]*\Z')
+
+
+def _qname_list_expected(d: Any, text: str) -> bool:
+    """restrictions (length family) of a list of xs:QName, prefixes p and q in scope, ASCII names"""
+    items = [x for x in L.xsd_collapse(text).split(' ') if x]
+    ok = all((m := _QNAME_LEX.match(x)) is not None and m.group(1) in (None, 'p', 'q') for x in items)
+    while d[0] == 'r':
+        for k, n in d[2].items():
+            if _root(d)[0] == 'l':
+                ok = ok and {'length': len(items) == n, 'minLength': len(items) >= n, 'maxLength': len(items) <= n}[k]
+        d = d[1]
+    return ok
+
+
+def qname_in_documents(ctx: Ctx, v11: bool) -> None:
+    """lists of xs:QName with the length family through an element, where prefixes are in scope (xmlns:p on the
+    element): valid iff every item is a QName whose prefix is declared and the NUMBER OF ITEMS satisfies the facets"""
+    import xmlschema
+    cls = xmlschema.XMLSchema11 if v11 else xmlschema.XMLSchema10
+    q = ('b', 'QName')
+    descs = [('l', q)]
+    for n in (0, 1, 2, 3):
+        descs += [('r', ('l', q), {'length': n}), ('r', ('l', q), {'minLength': n}), ('r', ('l', q), {'maxLength': n})]
+    descs.append(('r', ('r', ('l', q), {'minLength': 1, 'maxLength': 3}), {'minLength': 2, 'maxLength': 2}))
+    descs.append(('r', ('l', ('r', q, {'maxLength': 1})), {'length': 2}))
+    schema = cls(HEAD + ''.join(f'<xs:element name="e{i}"><xs:simpleType>{desc_xsd(d)}</xs:simpleType></xs:element>'
+                                for i, d in enumerate(descs)) + '</xs:schema>')
+    texts = ['a', 'a b', 'p:a b', 'p:a p:b', 'p:a p:b c', 'a b c d', 'z:a b', 'p:a  b ', 'p:1a b', 'p:a:b c', 'p: a', 'q:x q:y',
+             'a p:b q:c', 'p:a b c']
+    for i, d in enumerate(descs):
+        for text in texts:
+            ok = _qname_list_expected(d, text)
+            xml = f'<e{i} xmlns:p="urn:p" xmlns:q="urn:q">{esc(text)}</e{i}>'
+            case = {'v': '1.1' if v11 else '1.0', 'through': 'element-with-prefixes', 'desc': d, 'text': text, 'doc': xml}
+            try:
+                got = schema.is_valid(xml)
+            except Exception as e:   # noqa
+                ctx.failure('an exception escapes is_valid()', case, repr(e)[:200])
+                continue
+            ctx.case(case, True, tag=f"{case['v']}/qname-list-in-element")
+            ctx.count('dimension:qname-list-in-element:' + ('valid' if got else 'invalid'))
+            if got != ok:
+                ctx.failure('list of xs:QName in an element: accepted/refused against item lexical space, prefixes in scope '
+                            'and the length family counting items', case, {'impl_valid': got, 'expected': ok})
+
+
+def f14_item(item: tuple) -> bool:
+    """C02-F14: an element whose type is an atomic restriction of xs:QName / xs:NOTATION with length=0 or maxLength=0
+    (facets that are not in force on these types) and a text that is not empty"""
+    d, text, how = item
+    if how != 'element' or not L.xsd_collapse(text) or _root(d)[0] != 'b' or _root(d)[1] not in ('QName', 'NOTATION'):
+        return False
+    while d[0] == 'r':
+        if d[2].get('length') == 0 or d[2].get('maxLength') == 0:
+            return True
+        d = d[1]
+    return False
+
+
 def spec_ok_for_doc(d: Any) -> bool:
     """types usable in a generated document: no QName/NOTATION/ID-like built-ins (document-wide constraints)"""
-    return not (_all_builtin_names(d) & {'QName', 'NOTATION', 'ID', 'IDREF', 'ENTITY', 'error'})
+    return not (_all_builtin_names(d) & {'ID', 'IDREF', 'ENTITY', 'error'})
 
 
 def reconfirm_known(ctx: Ctx) -> None:
@@ -2147,6 +2323,14 @@ def reconfirm_known(ctx: Ctx) -> None:
 def witness_fails(w: dict) -> bool:
     import xmlschema
     try:
+        if w.get('kind') == 'document':
+            def tup(d: Any) -> Any:
+                if isinstance(d, list):
+                    return ('u', [tup(x) for x in d[1]]) if d[0] == 'u' else ('r', tup(d[1]), d[2]) if d[0] == 'r' else \
+                        ('l', tup(d[1])) if d[0] == 'l' else tuple(d)
+                return d
+            r = doc_eval(w.get('v', '1.1') == '1.1', [(tup(i['desc']), i['text'], i['as']) for i in w['items']], L.Oracle())
+            return r['in_doc'] != r['own']
         cls = xmlschema.XMLSchema11 if w.get('v', '1.1') == '1.1' else xmlschema.XMLSchema10
         t = cls(HEAD + w['schema'] + '</xs:schema>').types['T']
         if w.get('kind') == 'roundtrip':
@@ -2223,12 +2407,27 @@ def replay(ctx: Ctx, obj: dict) -> int:
                     pass
         finally:
             oracle.uninstall()
+        diff = [i for i, (x, y) in enumerate(zip(r['in_doc'], r['own'])) if x != y]
+        if diff and not r['other'] and 'content is empty' in r['reasons'] and \
+                all(f14_item(items[i]) and r['own'][i] and not r['in_doc'][i] for i in diff):
+            print('matches known finding C02-F14')
+            return 0
         if r['in_doc'] != r['own'] or r['other']:
             print('FAILS ON THE REAL CODE: a value inside a document is judged differently than by its own type')
             return 1
         return 0
     d = tup(case['desc'])
     cls = xmlschema.XMLSchema11 if v11 else xmlschema.XMLSchema10
+    if case.get('through') == 'element-with-prefixes':
+        sch = cls(HEAD + f'<xs:element name="e"><xs:simpleType>{desc_xsd(d)}</xs:simpleType></xs:element></xs:schema>')
+        xml = f'<e xmlns:p="urn:p" xmlns:q="urn:q">{esc(case["text"])}</e>'
+        got, want = sch.is_valid(xml), _qname_list_expected(d, case['text'])
+        print('DOCUMENT :', xml)
+        print('REAL CODE: valid =', got, '  XSD READING (items are QNames with prefixes in scope, facets count items): valid =', want)
+        if got != want:
+            print('FAILS ON THE REAL CODE: list of xs:QName in an element')
+            return 1
+        return 0
     if d[0] == 'b':
         schema = cls(HEAD + f'<xs:element name="b_{d[1]}" type="xs:{d[1]}"/></xs:schema>')
         t = schema.maps.types[XSD + d[1]]
